@@ -243,6 +243,67 @@ def check_burst(mido, tshim, acc, n, how):
                 pass
 
 
+def check_send_after_disconnect(mido, tshim, acc, nmsgs, nsends):
+    """The peer sends nmsgs messages and disconnects; the local side then
+    tries to send (what send does is not judged); afterwards iteration must
+    still hand out what arrived, end silently, and the port report closed."""
+    a, b = socket.socketpair()
+    acc.evals += 1
+    acc.nontrivial += 1
+    case = {'kind': 'send-after-disconnect', 'nmsgs': nmsgs, 'nsends': nsends}
+    sleeps = [0]
+
+    def on_sleep(sec):
+        sleeps[0] += 1
+        if sleeps[0] > 40:
+            raise Horizon()
+    tshim.on_sleep = on_sleep
+    try:
+        port = mido.sockets.SocketPort('peer', 1, conn=a)
+        data = b''.join(bytes(mido.Message('note_on', note=j).bytes())
+                        for j in range(nmsgs))
+        if data:
+            b.sendall(data)
+        b.close()
+        for k in range(nsends):
+            try:
+                port.send(mido.Message('note_on', note=100 + k))
+            except Exception:
+                pass            # not judged
+        try:
+            got = list(port)
+        except Horizon:
+            acc.violation('send-after-disconnect/iteration-did-not-end',
+                          f'{nmsgs} messages, {nsends} sends', case)
+            return
+        except Exception as e:
+            acc.violation(f'send-after-disconnect/iteration-raised/'
+                          f'{type(e).__name__}',
+                          f'peer sent {nmsgs} messages and disconnected, '
+                          f'{nsends} local send(s) attempted, then iterating '
+                          f'raised {e!r}', case)
+            return
+        want = sigs(mido.parse_all(list(data)))
+        if sigs(got) != want[:len(got)]:
+            acc.violation('send-after-disconnect/messages',
+                          f'received {got!r}, which is not a prefix of what '
+                          f'arrived', case)
+        elif len(got) < len(want):
+            # a failed send closes the port; whether unread input survives
+            # that is not defined by the statement - recorded only
+            acc.count('unread_input_dropped_by_failed_send')
+        if not port.closed:
+            acc.violation('send-after-disconnect/not-closed',
+                          'port.closed is False after iteration ended', case)
+    finally:
+        tshim.on_sleep = None
+        for s in (a, b):
+            try:
+                s.close()
+            except OSError:
+                pass
+
+
 def check_server_burst(mido, tshim, acc, counts):
     """Clients send a burst and disconnect before the server looks."""
     acc.evals += 1
@@ -457,6 +518,9 @@ def worker(shard):
                   1366):
             for how in ('iterate', 'poll', 'iter_pending'):
                 check_burst(mido, tshim, acc, n, how)
+        for nm in (0, 1, 3):
+            for ns in (1, 2, 3):
+                check_send_after_disconnect(mido, tshim, acc, nm, ns)
         acc.sample({'burst_sizes': [63, 64, 65, 1000]}, cap=1)
     return acc
 
@@ -522,6 +586,9 @@ def check_case(case):
                 case['close'], acc, 'socketpair')
     elif k == 'close':
         check_close_seen_by_peer(mido, acc)
+    elif k == 'send-after-disconnect':
+        check_send_after_disconnect(mido, tshim, acc, case['nmsgs'],
+                                    case['nsends'])
     elif k == 'burst':
         check_burst(mido, tshim, acc, case['n'], case['how'])
     elif k == 'server-burst':
